@@ -95,10 +95,27 @@ func NewSymTab(w *Workspace) *SymTab {
 			for _, o := range m.Oneofs {
 				add(m.FQN+"."+o, SymOneof, f.Name)
 			}
+			taken := map[string]bool{}
+			for _, fl := range m.Fields {
+				taken[fl.Name] = true
+			}
+			for _, o := range m.Oneofs {
+				taken[o] = true
+			}
 			for _, fl := range m.Fields {
 				field(m.FQN, fl, false)
 				if f.Syntax == Proto3 && fl.Label == "optional" {
-					add(m.FQN+"._"+fl.Name, SymOneof, f.Name)
+					// protoc's synthetic oneof name: "_" + name (no extra underscore if the name already
+					// starts with one), then 'X' prepended while it collides with a field or oneof name
+					n := fl.Name
+					if n == "" || n[0] != '_' {
+						n = "_" + n
+					}
+					for taken[n] {
+						n = "X" + n
+					}
+					taken[n] = true
+					add(m.FQN+"."+n, SymOneof, f.Name)
 				}
 			}
 			for _, n := range m.Nested {
